@@ -6,3 +6,7 @@ git -C /repo apply /verif/seeded/$id/patch.diff || { echo "cannot apply"; exit 2
 trap 'git -C /repo checkout -- .; python3 /verif/tools/gen_tables.py >/dev/null; python3 /verif/tools/gen_consts.py >/dev/null' EXIT
 ./check $pid $tier 2>&1 | tail -4
 echo "exit=${PIPESTATUS[0]}"
+# restore the tree and refresh the evidence file from the unchanged tree
+git -C /repo checkout -- .; python3 /verif/tools/gen_tables.py >/dev/null; python3 /verif/tools/gen_consts.py >/dev/null; python3 /verif/tools/gen_census.py >/dev/null
+trap - EXIT
+./check $pid quick >/dev/null 2>&1 || echo "WARNING: clean re-run of $pid did not pass"
